@@ -158,9 +158,10 @@ static const ZSTD_DDict* ZSTD_DDictHashSet_getDDict(ZSTD_DDictHashSet* hashSet, 
     const size_t idxRangeMask = hashSet->ddictPtrTableSize - 1;
     DEBUGLOG(4, "Hashed index: for dictID: %u is %zu", dictID, idx);
     for (;;) {
-        size_t currDictID = ZSTD_getDictID_fromDDict(hashSet->ddictPtrTable[idx]);
-        if (currDictID == dictID || currDictID == 0) {
-            /* currDictID == 0 implies a NULL ddict entry */
+        const ZSTD_DDict* const currDDict = hashSet->ddictPtrTable[idx];
+        /* an empty slot is a NULL entry, as in ZSTD_DDictHashSet_emplaceDDict() :
+         * a raw-content DDict has dictID 0 and does not end the probe sequence */
+        if (currDDict == NULL || ZSTD_getDictID_fromDDict(currDDict) == dictID) {
             break;
         } else {
             idx++;
